@@ -750,6 +750,7 @@ type ggen struct {
 	tags  int
 	funcs []*gfunc
 	feat  map[string]int
+	nest  int  // depth of nested partial applications being generated
 	noMul bool // inside a recursive function: no multiplication (integers must stay small: the models do not wrap)
 }
 
@@ -1078,6 +1079,14 @@ func (g *ggen) partialOf(env genv, t *gty) *gnode {
 		return nil
 	}
 	f := cands[g.r.Intn(len(cands))]
+	if !gTiny && g.nest == 0 && g.r.Intn(3) == 0 {
+		// favour a function-typed given argument (nested partial applications)
+		for _, c := range cands {
+			if c.ptys[0].k == "fun" {
+				f = c
+			}
+		}
+	}
 	k := len(f.ptys) - len(t.ps)
 	e := &gnode{op: "call", s: f.name, n: len(f.params), t: t}
 	for i := 0; i < k; i++ {
@@ -1088,10 +1097,28 @@ func (g *ggen) partialOf(env genv, t *gty) *gnode {
 		// fc evaluates the given arguments where the partial application stands (fix of D9): any
 		// expression of a first-order type may be given.  tinyfo keeps them inside the closure:
 		// its profile stays with effect-free arguments.
+		if !gTiny && g.nest > 0 && f.ptys[i].k == "int" && g.r.Intn(3) != 0 {
+			// inside a nested partial application: an argument whose evaluation is visible
+			e.kids = append(e.kids, &gnode{op: "tr", s: g.tag(), kids: []*gnode{g.inline(env, tInt, 1)}, t: tInt})
+			g.hit("partial-application-nested-traced-argument")
+			continue
+		}
 		if !gTiny && f.ptys[i].k != "fun" && g.r.Intn(2) == 0 {
 			e.kids = append(e.kids, g.inline(env, f.ptys[i], 1))
 			g.hit("partial-application-computed-argument")
 			continue
+		}
+		if !gTiny && f.ptys[i].k == "fun" && g.nest < 2 && g.r.Intn(4) != 0 {
+			// a partial application as the given argument of a partial application; its own given
+			// arguments may be computed (evaluated once, where the outer partial application stands)
+			g.nest++
+			in := g.partialOf(env, f.ptys[i])
+			g.nest--
+			if in != nil {
+				e.kids = append(e.kids, in)
+				g.hit("partial-application-nested")
+				continue
+			}
 		}
 		e.kids = append(e.kids, g.pure(env, f.ptys[i]))
 	}
@@ -1488,6 +1515,10 @@ func gHelperFuncs() []*gfunc {
 			body: blk(tBool, []*gstmt{say(&gnode{op: "sprintf1", s: "gt%d", t: tStr, kids: []*gnode{v("n", tInt)}})}, &gnode{op: "bin", s: ">", t: tBool, kids: []*gnode{v("n", tInt), v("lim", tInt)}})},
 		{name: "join2", params: []string{"sep", "a", "b"}, ptys: []*gty{tStr, tStr, tStr}, ret: tStr, annot: []bool{true, true, true},
 			body: blk(tStr, nil, &gnode{op: "bin", s: "+", t: tStr, kids: []*gnode{{op: "bin", s: "+", t: tStr, kids: []*gnode{v("a", tStr), v("sep", tStr)}}, v("b", tStr)}})},
+		// a function-typed parameter: `applyI g` is a partial application whose given argument is a
+		// function value (a variable, a lambda, or again a partial application - nested)
+		{name: "applyI", params: []string{"fn", "x"}, ptys: []*gty{tFun([]*gty{tInt}, tInt), tInt}, ret: tInt, annot: []bool{true, true},
+			body: blk(tInt, nil, &gnode{op: "callv", t: tInt, kids: []*gnode{v("fn", tFun([]*gty{tInt}, tInt)), v("x", tInt)}})},
 	}
 }
 
